@@ -176,6 +176,42 @@ def name_cases(n0):
     return out
 
 
+def command_cases(n0):
+    """deterministic shapes the bounded alphabet is too small for: every (file kind, header kind) pairing of a header update on
+    files that have contents; empty-block commands whose length is 511 / 512 / 513 / 1024 blocks (a multiple of 64 KiB or not)
+    on top of existing contents; a folder emptied by RemoveAll and written again in the same patch"""
+    out, n = [], n0
+    T = {"k": "T", "plat": 0}
+    ids = {"main": 10, "sub": 0x0102, "file": 3}
+    fill = {**ids, "k": "A", "off": 0, "data": [[0x5A, 128 * 24]], "del": 0}
+    for fk in ("D", "I"):
+        for hk in ("V", "I", "D"):
+            h = {**ids, "k": "H", "fk": fk, "hk": hk, "data": [[0x11, 512], [0x22, 512]]}
+            if fk == "I":
+                h["file"] = 0
+            idxfill = {"k": "FA", "path": list(b"sqpack/ex1/0a0102.win32.index"), "off": 0, "data": [[0x77, 3000]], "blocks": [[False, 3000]]}
+            out.append(make_case(n, {"dirs": [], "files": []}, [[T, fill, idxfill, h]], desc={"header update": [fk, hk]}))
+            n += 1
+    for k in ("D", "E"):
+        for blocks in (511, 512, 513, 1024):
+            big = {**ids, "k": "A", "off": 0, "data": [[0x33, 128 * 1100]], "del": 0}
+            out.append(make_case(n, {"dirs": [], "files": []}, [[T, big, {**ids, "k": k, "off": 2, "n": blocks}]],
+                                 desc={"empty-block command": [k, blocks]}))
+            n += 1
+    for blocks in (512, 1024):
+        big = {**ids, "k": "A", "off": 0, "data": [[0x44, 128 * 1100]], "del": 0}
+        out.append(make_case(n, {"dirs": [], "files": []}, [[T, big, {**ids, "k": "A", "off": 1, "data": [[0x55, 128]], "del": blocks}]],
+                             desc={"add-data delete count": blocks}))
+        n += 1
+    for after in ({**ids, "k": "A", "off": 0, "data": [[9, 128]], "del": 0}, {**ids, "k": "E", "off": 0, "n": 2},
+                  {**ids, "k": "H", "fk": "D", "hk": "V", "data": [[7, 1024]]},
+                  {"k": "FA", "path": list(b"sqpack/ex1/new.bin"), "off": 0, "data": [[8, 40]], "blocks": [[False, 40]]}):
+        out.append(make_case(n, {"dirs": [], "files": []}, [[T, fill, {"k": "FR", "ex": 1}, after]],
+                             desc={"written again after RemoveAll": after["k"]}))
+        n += 1
+    return out
+
+
 def block_sweep(n0, tier):
     """one-block (and two-block) AddFile chunks for every payload length 1..300 in every block flavour:
     every residue of the compressed length modulo the 128-byte alignment is hit (stored deflate = length + 5)"""
@@ -216,11 +252,13 @@ def check(run):
     base = len(cases)
     cases += block_sweep(base, run.tier)
     base = len(cases)
+    cases += command_cases(base)
+    base = len(cases)
     for i in range(120 if run.tier == "quick" else 1200):
         cases.append(random_case(rng, base + i, run.tier))
     run.rule = ("every chunk sequence of length <= 3 (incl. patch boundaries) over a 30-op alphabet x 3 initial trees enumerated by "
                 "TLC from the bounded model (quick: all of length <= 2 and a seeded quarter of length 3), concretised by "
-                "gen/zipatch.py; file-name sweep over categories x expansions x chunks x dat ids x 3 platforms; seeded random "
+                "gen/zipatch.py; every (file kind, header kind) header update, empty-block commands of 511 / 512 / 513 / 1024 blocks, folders written again after RemoveAll; file-name sweep over categories x expansions x chunks x dat ids x 3 platforms; seeded random "
                 "patches (5..200 chunks, chains of 1..5 patches, byte-granular offsets, multi-block raw/deflated files) via "
                 "ZiPatch::apply, GameData::apply_patch and BootData::apply_patch; distinct by chunk sequence and tree, "
                 "non-trivial when at least one chunk precedes EOF")
